@@ -511,6 +511,9 @@ func (s *stepper) Step(i int, st replay.Step) (replay.Obs, error) {
 	pextra := strays(s.plain)
 	obs["plain"] = abstract(pres.batches, exps, want, pres.note)
 	same, why := sameDecoded(res.batches, pres.batches)
+	if same && (res.note != "" || pres.note != "") {
+		same, why = false, "a response did not end with an end-of-stream marker"
+	}
 	obs["same"] = same
 	if !quiet {
 		note += "the server did not come to rest after the call; "
